@@ -3,6 +3,7 @@ import NgoVerif.Syntax
 import NgoVerif.Model.Collect
 import NgoVerif.Model.Globals
 import NgoVerif.Model.Options
+import NgoVerif.Model.Api
 /-!
 # Line-protocol driver: one s-expression request per line on stdin, one s-expression answer per line on stdout.
 
@@ -104,6 +105,13 @@ def handle (req : Sexp) : Sexp :=
       | .auto => .list [.atom "auto"]
       | .reject => .list [.atom "reject"]
       | .preds ps => ok [.list (ps.map fun p => .list [.str p.name, ofInt p.arity])]
+  | .list [.atom "stages", .list fl, n] =>
+    let flags := fl.filterMap fun f => match f with
+      | .list [.str k, b] => b.toBool?.map fun v => (k, v)
+      | _ => none
+    match n.toNat? with
+    | some k => if flags.length == fl.length then ok [strsToSexp (traceStages flags k)] else unsupported "flags"
+    | none => unsupported "iterations"
   | _ => unsupported "unknown op"
 
 partial def loop (hin : IO.FS.Stream) (hout : IO.FS.Stream) : IO Unit := do
